@@ -222,6 +222,10 @@ where
                     ctx.check("C19", "equal values hash alike", inst, hash_of(&p2) == hash_of(p), &null, &null);
                     ctx.check("C19", "equal values compare Equal", inst, p2.cmp(p) == std::cmp::Ordering::Equal, &null, &null);
                 } else if let Some(c2) = display(&p2) {
+                    // C19 for a built value and the value its printed form parses to: equal exactly when their strings are equal
+                    ctx.check("C19", "built value and its re-parsed form: equal exactly when the canonical strings are equal", inst,
+                              (&p2 == p) == (c2 == c) && (p2.cmp(p) == std::cmp::Ordering::Equal) == (&p2 == p)
+                                  && (&p2 != p || hash_of(&p2) == hash_of(p)), obs, &o2);
                     let (o3, p3) = parse_outcome::<T>(&c2);
                     let fix = p3.as_ref() == Some(&p2) && p3.as_ref().and_then(display).as_deref() == Some(&*c2);
                     ctx.check("C01", "printed form of a built value re-parses to a fixpoint", inst, fix, &o2, &o3);
@@ -651,6 +655,9 @@ fn bop_inst<T: StShape + Clone>(ctx: &mut Ctx, inst: &str, case: &Value) {
     };
     ctx.check("C06", "no panic", inst, obs.get("panic").is_none(), &json!("builder or error"), &obs);
     ctx.check("C09", "setter changes exactly its own field", inst, obs == case["post"], &case["post"], &obs);
+    if case["op"][0] == json!("try_with_typed_checksum") {
+        ctx.check("C12", "a typed checksum set through the builder is the text the builder carries", inst, obs == case["post"], &case["post"], &obs);
+    }
 }
 
 pub fn run_bop(ctx: &mut Ctx, case: &Value) {
@@ -1019,6 +1026,9 @@ fn qop_step(ctx: &mut Ctx, q: &mut purl::Qualifiers, op: &Value, exp_res: &Value
     }
     let post = quals_json(q);
     ctx.check("C11", "content after the call is what the reference map gives", "Qualifiers", &post == exp_post, exp_post, &post);
+    if op[0] == json!("try_insert_typed_checksum") || op[0] == json!("try_get_typed_checksum") {
+        ctx.check("C12", "typed checksum accessors of the collection", "Qualifiers", &res == exp_res && &post == exp_post, exp_res, &res);
+    }
     let ex = quals_extras(q);
     let all = ex.as_object().map(|m| m.values().all(|b| b == &Value::Bool(true))).unwrap_or(false);
     ctx.check("C11", "iteration from both ends, len and lookups agree", "Qualifiers", all, &Value::Null, &ex);
